@@ -36,6 +36,9 @@ class Target:
     """extended-style TestResult double shared by all forwarders: every method is a yield point, logs the
     call with the calling thread, and raises when the calling thread's fault plan says so"""
 
+    #: C12 raises faults of both kinds (Exception / BaseException outside Exception); C13's fault domain is Exception only
+    mixed_faults = True
+
     def __init__(self, sched, log, faults):
         self.s, self.log, self.faults, self.n = sched, log, faults, {}
 
@@ -47,7 +50,7 @@ class Target:
         r = k in self.faults.get(tid, ())
         self.log.append([tid, 'call', c, r])
         if r:
-            raise S.injected(tid, k)
+            raise S.injected(tid, k) if self.mixed_faults else S.Injected('injected fault')
 
     def startTestRun(self): self._call('startTestRun')
     def stopTestRun(self): self._call('stopTestRun')
